@@ -523,6 +523,9 @@ func (e *Engine) loopEnter(st *State, fr *Frame, b *ssa.BasicBlock, li *loopInfo
 		for _, inv := range ls.Invariants {
 			st.assume(e.evalBool(env, inv))
 		}
+		for _, h := range ls.Hints {
+			st.assume(e.evalBool(env, h))
+		}
 		if ls.Decreases != nil {
 			v := env.eval(ls.Decreases.Expr)
 			fr.variant[b] = e.named(st, "variant", v.T, "Int")
